@@ -545,3 +545,114 @@ Proof.
 Qed.
 Lemma cast_acceptable_l : forall lib c v, acceptable (cast_eval lib c v) = true.
 Proof. intros lib c v; destruct c, v; cbn; try reflexivity; try (destruct (parse_float lib s); reflexivity); try (destruct items; reflexivity). Qed.
+
+(* ------------------------------------------------------------------ exact kind-level classification of == symmetry *)
+Lemma feq_nan_l : forall x, feq nan x = false.
+Proof.
+  intro x. unfold feq. rewrite FloatAxioms.eqb_spec.
+  replace (Prim2SF nan) with (@SpecFloat.S754_nan) by (vm_compute; reflexivity). reflexivity.
+Qed.
+
+(* a witness of asymmetry for every recorded ordered kind pair *)
+Definition sym_witness (lib : golib) (a b : ty) : value * value :=
+  let w (t : ty) (other : ty) : value :=
+    match t with
+    | TNull => VNull
+    | TBool => match other with TNull => VBool false | _ => VBool true end
+    | TInt => match other with TNull => VInt 0 | TStr => VInt 1 | _ => VInt 2 end
+    | TFloat => match other with TNull => VFloat 0%float | TStr => VFloat nan | _ => VFloat 1.5%float end
+    | TStr => match other with
+              | TNull => VStr "" | TBool => VStr "a" | TInt => VStr "1" | TFloat => VStr (fmt_float lib nan)
+              | TArr => VStr "[]" | TObj => VStr (obj_str lib false 1) | TCls => VStr (obj_str lib true 1) | _ => VStr ""
+              end
+    | TArr => match other with TStr => VArr [] | _ => VArr [1%Z] end
+    | TObj => VObj 1
+    | TCls => VCls 1
+    | TNil => VNil
+    end in
+  (w a b, w b a).
+
+Lemma eq_sym_witness_l : forall lib a b, eq_sym_known a b = true ->
+  let p := sym_witness lib a b in
+  ty_of (fst p) = a /\ ty_of (snd p) = b /\ wf (fst p) = true /\ wf (snd p) = true /\
+  exists x, eq lib false (fst p) (snd p) = Val (VBool x) /\ eq lib false (snd p) (fst p) = Val (VBool (negb x)).
+Proof.
+  intros lib a b H. destruct a, b; try discriminate H; cbn [sym_witness fst snd];
+    (repeat split; try reflexivity);
+    try (eexists; split; [reflexivity | cbn; try rewrite String.eqb_refl; reflexivity]);
+    try (exists true; split; cbn; try rewrite String.eqb_refl; reflexivity);
+    try (exists false; split; cbn; try rewrite String.eqb_refl; reflexivity).
+  - exists false. split.
+    + unfold eq. cbn. destruct (parse_float lib (fmt_float lib nan)); cbn; [rewrite feq_nan_l|]; reflexivity.
+    + unfold eq. cbn. rewrite String.eqb_refl. reflexivity.
+  - exists true. split.
+    + unfold eq. cbn. rewrite String.eqb_refl. reflexivity.
+    + unfold eq. cbn. destruct (parse_float lib (fmt_float lib nan)); cbn; [rewrite feq_nan_l|]; reflexivity.
+Qed.
+
+(* ------------------------------------------------------------------ the mirror law for < <= > >= *)
+Lemma rel_mirror_partial_l : forall lib o l r,
+  mirror_known (ty_of l) (ty_of r) = false -> rel lib o l r = rel lib (flip o) r l.
+Proof.
+  intros lib o l r H. destruct l, r; try discriminate H; destruct o; cbn; try reflexivity.
+  all: try (do 2 f_equal; lia).
+  all: try (destruct b, b0; reflexivity).
+Qed.
+
+Lemma fle_nan_l : forall x, fle nan x = false.
+Proof.
+  intro x. unfold fle. rewrite FloatAxioms.leb_spec.
+  replace (Prim2SF nan) with (@SpecFloat.S754_nan) by (vm_compute; reflexivity). reflexivity.
+Qed.
+
+Definition mirror_witness (lib : golib) (a b : ty) : value * value * relop :=
+  match a, b with
+  | TNull, TInt => (VNull, VInt 1, RLt) | TInt, TNull => (VInt 1, VNull, RGt)
+  | TNull, TFloat => (VNull, VFloat 1%float, RLt) | TFloat, TNull => (VFloat 1%float, VNull, RGt)
+  | TNull, TStr => (VNull, VStr "", RLe) | TStr, TNull => (VStr "", VNull, RGe)
+  | TBool, TStr => (VBool true, VStr "true", RLe) | TStr, TBool => (VStr "true", VBool true, RGe)
+  | TInt, TStr => (VInt 1, VStr "1", RLe) | TStr, TInt => (VStr "1", VInt 1, RGe)
+  | TFloat, TStr => (VFloat nan, VStr (fmt_float lib nan), RLe) | TStr, TFloat => (VStr (fmt_float lib nan), VFloat nan, RGe)
+  | TStr, TArr => (VStr "[]", VArr [], RLe) | TArr, TStr => (VArr [], VStr "[]", RGe)
+  | TStr, TObj => (VStr (obj_str lib false 1), VObj 1, RLe) | TObj, TStr => (VObj 1, VStr (obj_str lib false 1), RGe)
+  | TStr, TCls => (VStr (obj_str lib true 1), VCls 1, RLe) | TCls, TStr => (VCls 1, VStr (obj_str lib true 1), RGe)
+  | _, _ => (VNull, VNull, RLt)
+  end.
+Lemma leb_refl : forall s, String.leb s s = true.
+Proof.
+  intro s. pose proof (s_eqb_cmp s s) as H. rewrite String.eqb_refl in H. unfold String.leb.
+  destruct (String.compare s s); cbn in H; try discriminate; reflexivity.
+Qed.
+Lemma rel_mirror_witness_l : forall lib a b, mirror_known a b = true ->
+  let '(l, r, o) := mirror_witness lib a b in
+  ty_of l = a /\ ty_of r = b /\ wf l = true /\ wf r = true /\
+  exists x, rel lib o l r = Val (VBool x) /\ rel lib (flip o) r l = Val (VBool (negb x)).
+Proof.
+  intros lib a b H. destruct a, b; try discriminate H; cbn [mirror_witness];
+    (repeat split; try reflexivity).
+  all: try (eexists; split; [reflexivity | cbn; try rewrite leb_refl; reflexivity]).
+  all: try (exists true; split; cbn; try rewrite leb_refl; reflexivity).
+  all: try (exists false; split; cbn; try rewrite leb_refl; reflexivity).
+  - exists false. split; cbn.
+    + destruct (parse_float lib (fmt_float lib nan)); cbn; [rewrite fle_nan_l|]; reflexivity.
+    + rewrite leb_refl. reflexivity.
+  - exists true. split; cbn.
+    + rewrite leb_refl. reflexivity.
+    + destruct (parse_float lib (fmt_float lib nan)); cbn; [rewrite fle_nan_l|]; reflexivity.
+Qed.
+
+Lemma flt_fle : forall a b, flt a b = true -> fle a b = true.
+Proof. intros a b H. rewrite flt_fcmp in H. rewrite fle_fcmp, H. reflexivity. Qed.
+(* < implies <= (one dispatch) *)
+Lemma lt_implies_le_l : forall lib l r, rel lib RLt l r = Val (VBool true) -> rel lib RLe l r = Val (VBool true).
+Proof.
+  intros lib l r; unfold rel.
+  destruct l; destruct r; cbn; pf_cases lib; try discriminate; try reflexivity;
+    intro H; injection H as H; do 2 f_equal.
+  all: try (apply flt_fle; exact H).
+  all: try (apply Z.leb_le; apply Z.ltb_lt in H; lia).
+  all: try (destruct b, b0; try reflexivity; discriminate).
+  all: try (unfold String.ltb in H; unfold String.leb;
+            match goal with |- context [String.compare ?a ?b] => destruct (String.compare a b) end; try discriminate; reflexivity).
+Qed.
+
